@@ -1027,6 +1027,7 @@ class Engine:
             raise Unsupported('for over {!r} (line {})'.format(it, s.lineno))
         niter = z3.simplify(niter) if is_z3(niter) else niter
         itname = spec.get('counter', '_it')
+        env['_iter'] = it          # the value being iterated (for ghost_at_entry)
         env[itname] = z3.IntVal(0)
         self.assign(s.target, elem(z3.IntVal(0)), env)    # value the first iteration would use
         self.ghosts_at_entry(spec, env)
